@@ -77,7 +77,8 @@ def run(ctx):
         ctx.ob('C11.1', f, 'mutation-under-lock:' + s.name, ok, '%s %s a WorkspaceGuard' % (s.name, 'runs inside' if ok else 'runs OUTSIDE'), line=s.line)
 
     # ---------------------------------------------------------------- C11.2
-    se = [s for s in P.callers(r'ContinuityStore::append_tool_side_effects$')]
+    # seen from the function that runs the tool: a recording block extracted into a helper is followed to its call sites
+    se = P.lift_sites([s for s in P.callers(r'ContinuityStore::append_tool_side_effects$')], lambda g: bool(g.calls(RUN)))
     ctx.floor('C11.2', 'append_tool_side_effects sites', len(se), 2)
     for s in se:
         f = s.fn
